@@ -179,16 +179,25 @@ class World(ControlWorld):
                 self.sit["C18.direct_use_between_lines"] += 1
             s = rng.choice(free)
             x = rng.random()
-            if rng.random() < 0.06 and not pool.is_locked:
+            if rng.random() < 0.1 and not pool.is_locked:
                 # a client that does not wait for replies: a request and the cancellation of everything in one segment
                 # (the spawner is then cancelled before it has taken a single step)
                 spawn = "start 2" if self.sc["cls"] != "T" else f"apply vf.targets.{rng.choice(['work', 'block'])} --num 2"
-                both = await self.send_batch(s, [spawn, rng.choice(["cancel-all", "cancel-all --msg bye"])])
+                menu = [spawn, "cancel-all", "cancel-all --msg bye", "pool-size", f"pool-size {rng.choice([1, 2, 3])}", "num-running", "is-full", "flush -r"]
+                k = rng.random()
+                if k < 0.4:
+                    lines = [spawn, rng.choice(["cancel-all", "cancel-all --msg bye"])]
+                elif k < 0.7:
+                    lines = [rng.choice(["cancel-all", "cancel-all --msg bye"]), rng.choice(["pool-size", f"pool-size {rng.choice([1, 2, 3])}", "is-full"])]
+                else:
+                    lines = [rng.choice(menu) for _ in range(rng.choice([2, 3]))]
+                both = await self.send_batch(s, lines)
                 self.sit["C18.pipelined_spawn_cancel"] += 1
-                if len(both) != 2:
-                    self.violate("C18.one_reply", f"a request and cancel-all in one segment produced {len(both)} writes: {[b[:40] for b in both]}")
+                if len(both) != len(lines):
+                    self.violate("C18.one_reply", f"the lines {lines} in one segment produced {len(both)} writes: {[b[:40] for b in both]}")
                 if s.task.done():
-                    self.violate("C18.alive", "the session ended after a pipelined request + cancel-all")
+                    exc = None if s.task.cancelled() else s.task.exception()
+                    self.violate("C18.alive", f"the session ended after the pipelined lines {lines}: {type(exc).__name__ if exc else 'returned'}: {exc}")
                     return
                 continue
             if x < 0.05:
